@@ -28,6 +28,21 @@ fn case(tier: Tier, rng: &mut Rng, rep: &mut Report) {
     p.allow_turn_delay = false;
     p.surcharges = rng.chance(0.3);
     let mut world = gen_world(rng, &p);
+    // credits: a negative per-edge network rate larger than the edge's own cost on a share of the edges. the charged
+    // cost of such an edge is the positive floor (C07), so reachability and termination are as on any other network
+    if rng.chance(0.15) {
+        let feature = world.cost.weights.iter().find(|w| w.1 > 0.0).map(|w| w.0.clone());
+        if let Some(f) = feature {
+            let mut t = std::collections::HashMap::new();
+            for e in 0..world.net.ne() {
+                if rng.chance(0.4) {
+                    t.insert(e, -rng.log_uniform(1e3, 1e9));
+                }
+            }
+            world.cost.edge_surcharge.push((f, t));
+            rep.count("worlds_with_credits_(floored_edge_costs)", 1);
+        }
+    }
     let net = world.net.clone();
     let r = gen_edge_local(rng, &net);
     world.frontier = r.cfg.clone();
